@@ -51,6 +51,9 @@ shape("_NSIntegralState", {
     "log_vols": "List(Real)",
     "nlive": "List(Int)",
     "gradients": "List(Real)",
+    # ghost: logZ has been replaced by the refined (trapezoidal) value; from
+    # then on it is no longer the running sum that `increment` extends
+    "ghost_refined": "Bool",
 })
 
 shape("NestedSampler", {
